@@ -111,6 +111,10 @@ inductive Op where
   /-- the channel generates its next update; `blocked`: it is held in blocked_monitor_updates instead of
       being handed to chain::Watch (it is queued behind earlier blocked updates in any case) -/
   | update (u : Upd) (blocked : Bool)
+  /-- a new update is handed to chain::Watch AHEAD of the blocked ones: it takes the first blocked id and
+      every blocked update's id is bumped (channel.rs get_update_fulfill_htlc_and_commit: a preimage claim
+      while RAA updates are held) -/
+  | jump (u : Upd)
   /-- the first blocked update is handed to chain::Watch -/
   | release
   /-- the persister reports completion and every update through `k` is now durable (completions that
@@ -168,6 +172,9 @@ def step (st : St) : Op → St
     if st.closed then st
     else if blocked || decide (st.watch < st.latest) then { st with upds := st.upds ++ [u] }
     else { st with upds := st.upds ++ [u], watch := st.watch + 1 }
+  | .jump u =>
+    if st.closed then st
+    else { st with upds := st.upds.take (st.watch - st.baseId) ++ u :: st.upds.drop (st.watch - st.baseId), watch := st.watch + 1 }
   | .release => if !st.closed && decide (st.watch < st.latest) then { st with watch := st.watch + 1 } else st
   | .complete k => if decide (st.durable < k) && decide (k ≤ st.watch) then { st with durable := k } else st
   | .notify => if decide (st.durable = st.watch) then { st with lo := st.watch + 1 } else st
@@ -175,5 +182,9 @@ def step (st : St) : Op → St
   | .crash d => if decide (st.durable ≤ d) && decide (d ≤ st.watch) then crashStep st d else st
 
 def run (st : St) (ops : List Op) : St := ops.foldl step st
+
+def Op.isJump : Op → Bool
+  | .jump _ => true
+  | _ => false
 
 end Ldk.Restart
